@@ -79,6 +79,17 @@ fn arg_class(arg: &str) -> String {
 }
 
 fn check_one(cx: &Ctx, bi: usize, arg: &str, acc: &mut Acc, order: u64, with_async: bool) {
+    // the accessors (parent, filename, extension, root, ==) are library code too: a panic in them is a violation
+    let mut local = Acc::new();
+    if let Err(p) = guard(|| check_one_inner(cx, bi, arg, &mut local, order, with_async)) {
+        let bstr = cx.bases[bi].as_str().to_string();
+        viol(acc, "panic-in-accessor", format!("join({:?}, {:?}) or an accessor on its result panicked: {} at {}", bstr, arg, p.message, p.location), &bstr, arg, order);
+        acc.violate(Violation { property: "C13", signature: format!("panic|path-accessor|{}|{}|{}", arg_class(arg), p.head(), p.file()), summary: format!("path accessor panicked for join({:?}, {:?}): {}", bstr, arg, p.message), detail: J::obj().set("base", J::s(&bstr)).set("arg", J::s(arg)), order });
+    }
+    acc.merge(local);
+}
+
+fn check_one_inner(cx: &Ctx, bi: usize, arg: &str, acc: &mut Acc, order: u64, with_async: bool) {
     let base = &cx.bases[bi];
     let bstr = base.as_str().to_string();
     acc.steps += 1;
@@ -291,7 +302,13 @@ pub fn run(a: &Args) -> (Acc, bool) {
             for k in 0..60u64 {
                 match rng.below(6) {
                     0 => {
-                        cur = cur.parent();
+                        match guard(|| cur.parent()) {
+                            Ok(p) => cur = p,
+                            Err(p) => {
+                                viol(acc, "panic-in-accessor", format!("parent() of {:?} panicked: {}", cur.as_str(), p.message), cur.as_str(), "<parent>", idx * 1000 + k);
+                                break;
+                            }
+                        }
                         stack.pop();
                     }
                     1 if rng.chance(1, 4) => {
